@@ -141,7 +141,9 @@ func UniqueKeyFromLabelsSelector(ls *v1.LabelSelector) (string, error) {
 		if newStr != "" {
 			currentStr = newStr
 		}
-		reqStr += currentStr
+		// the requirements are separated, so that different selectors never yield the same string
+		// (e.g. {tier=b, app Exists} and {apptier=b} : "app"+"tier=b" vs. "apptier=b")
+		reqStr += currentStr + ";"
 	}
 	return hex.EncodeToString(sha1.New().Sum([]byte(reqStr))), nil //nolint:gosec // Non-crypto use
 }
